@@ -53,7 +53,7 @@ def make_config(rng, family):
     cfg["start_id"] = None
     if family == "ids" or rng.random() < 0.08:
         cfg["start_id"] = rng.choice([65530, 65531, 65532, 65533, 65534, 65535, 65529, 65500])
-    cfg["two_addr"] = rng.random() < 0.1
+    cfg["two_addr"] = rng.random() < 0.14
     deep = bool(os.environ.get("VERIF_DEEP"))        # thorough tier: more long histories
     n = _w(rng, [((5, 25), 5), ((20, 60), 4), ((60, 200), 2 if not deep else 3), ((200, 600), 0.4 if not deep else 1.5),
                  ((600, 2000), 0.0 if not deep else 0.4)])
@@ -73,7 +73,7 @@ def make_config(rng, family):
         "stall": rng.random() < (0.15 if family not in ("keepalive",) else 0.0),
         "closing_activity": rng.random() < (0.8 if family == "closing" else 0.4),
         "raw": family == "hostile" or rng.random() < 0.05,
-        "reentrant": rng.random() < (0.7 if family == "resume" else 0.3),
+        "reentrant": rng.random() < (0.7 if family == "resume" else (0.6 if cfg["two_addr"] else 0.3)),
         "stale_handle": rng.random() < 0.4,
         "alias": rng.random() < 0.3,
         "burst": rng.random() < (0.25 if family in ("window", "publisher", "general", "clean", "persistent") else 0.05),
@@ -310,6 +310,9 @@ class Gen(object):
     def reaction(self, addr, what, when):
         """An API call the application makes from inside a callback."""
         rng = self.rng
+        if len(self.addrs) > 1 and rng.random() < 0.45:
+            # ... possibly on its connection to the other broker (fail-over)
+            addr = [a for a in self.addrs if a != addr][0]
         if what == "publish":
             return {"op": "app.call", "addr": addr, "m": "publish",
                     "k": {"topic": gen_topic(rng), "message": "rx", "qos": rng.randint(0, 2)}, "when": when}
@@ -341,9 +344,11 @@ class Gen(object):
             st["k"]["retain"] = rng.random() < 0.7
         if qos == 0 and rng.random() < 0.5:
             del st["k"]["qos"]          # documented default
+        if rng.random() < 0.06:
+            st["cbret"] = "app-value"   # the application's callback returns something
         if h:
             st["h"] = h
-        if cfg["faults"]["reentrant"] and rng.random() < (0.3 if self.fam == "ids" else 0.2) and qos > 0:
+        if cfg["faults"]["reentrant"] and rng.random() < (0.3 if self.fam == "ids" else (0.45 if len(self.addrs) > 1 else 0.2)) and qos > 0:
             if rng.random() < (0.5 if self.fam == "ids" else 0.25):
                 st["then"] = [self.reaction(addr, "disconnect", "ok")]
             elif rng.random() < 0.45:
@@ -833,7 +838,7 @@ class Gen(object):
         long_s = {"$": "rep", "s": "L", "n": 65536}
         long3 = {"$": "rep", "s": "€", "n": 21846}   # 65538 bytes, 21846 chars
         choice = rng.choice(["win", "win", "timeout", "bw", "pub_qos", "pub_payload", "pub_topic", "sub_qos", "sub_type",
-                             "unsub_type", "sub_qos_list"])
+                             "unsub_type", "sub_qos_list", "sub_enc", "unsub_enc"])
         if choice == "win":
             return {"op": "app.call", "addr": addr, "m": "setWindowSize", "a": [rng.choice([0, 17, -1, 100])], "tag": "bad"}
         if choice == "timeout":
@@ -856,6 +861,15 @@ class Gen(object):
         if choice == "sub_qos_list":
             return {"op": "app.call", "addr": addr, "m": "subscribe", "tag": "bad",
                     "a": [[{"$": "tuple", "v": ["a", 1]}, {"$": "tuple", "v": ["b", rng.choice([3, -1])]}]]}
+        if choice == "sub_enc":
+            # well-formed container, but a topic that only the encoder can refuse
+            bad_t = rng.choice([5, long_s, long3, {"$": "none"}])
+            lst = [{"$": "tuple", "v": ["a", 1]}, {"$": "tuple", "v": [bad_t, rng.randint(0, 2)]}]
+            rng.shuffle(lst)
+            return {"op": "app.call", "addr": addr, "m": "subscribe", "tag": "bad", "a": [lst[:rng.choice([1, 2])] if lst[0]["v"][0] != "a" else lst]}
+        if choice == "unsub_enc":
+            return {"op": "app.call", "addr": addr, "m": "unsubscribe", "tag": "bad",
+                    "a": [rng.choice([["a", 5], [long_s], ["x", long3], [{"$": "none"}]])]}
         if choice == "sub_type":
             return {"op": "app.call", "addr": addr, "m": "subscribe", "tag": "bad",
                     "a": [rng.choice([5, {"$": "none"}, {"$": "obj"}, 1.5, {"$": "bytes", "v": "61"}])]}
